@@ -36,8 +36,14 @@ def dedup (l : List St) : List St := l.foldl (fun acc x => if acc.contains x the
 
 /-- labels by which a thread moves on its own -/
 def threadLabels (s : St) : List Label :=
-  [.s, .r, .rGet false, .rGet true, .cbRet, .u tidR] ++ s.callers.map (fun c => Label.u c.1) ++
-  (match s.rpc with | .deliver _ todo => todo.map Label.rCb | _ => [])
+  [.s, .r, .rGet false, .rGet true, .cbRet, .u tidR, .connectFailed] ++ s.callers.map (fun c => Label.u c.1) ++
+  (match s.rpc with
+   | .deliver _ todo =>
+     -- partial-order reduction: skipping entries of the snapshot that were unregistered meanwhile is invisible and the skips
+     -- commute, so only the first such entry is tried; registered entries may be invoked in any order
+     (todo.filter (fun cb => s.msgCbs.contains cb)).map Label.rCb ++
+     ((todo.find? (fun cb => !s.msgCbs.contains cb)).map Label.rCb).toList
+   | _ => [])
 
 /-- successors by internal steps (no observable, or a hidden one) -/
 def tauSucc (P : Params) (hidden : List String) (s : St) : List St :=
